@@ -109,7 +109,7 @@ impl Harness for Hnf {
             RingSel::Z => self.check::<I, I>(xs),
             RingSel::Gauss => self.check::<I, GaussInt<I>>(xs),
             RingSel::Eisen => self.check::<I, EisenInt<I>>(xs),
-            RingSel::Q => unreachable!(),
+            RingSel::Q | RingSel::ZH => unreachable!(),
         }
     }
 }
@@ -170,7 +170,7 @@ impl Lll {
                 RingSel::Gauss => (&(a * c) - &(b * d), &(a * d) + &(b * c)),
                 // w^2 = w - 1
                 RingSel::Eisen => (&(a * c) - &(b * d), &(&(a * d) + &(b * c)) + &(b * d)),
-                RingSel::Q => unreachable!(),
+                RingSel::Q | RingSel::ZH => unreachable!(),
             }
         };
         let conj = move |x: &(I, I)| -> (I, I) {
@@ -179,7 +179,7 @@ impl Lll {
                 RingSel::Z => (a.clone(), I::zero()),
                 RingSel::Gauss => (a.clone(), -b),
                 RingSel::Eisen => (a + b, -b),
-                RingSel::Q => unreachable!(),
+                RingSel::Q | RingSel::ZH => unreachable!(),
             }
         };
         let add = |x: &(I, I), y: &(I, I)| (&x.0 + &y.0, &x.1 + &y.1);
@@ -259,7 +259,7 @@ impl Lll {
                                 VF::And(vec![VF::Atom(&d[j] - &(&two * &lc), Rel::Ge), VF::Atom(&d[j] + &(&two * &lc), Rel::Ge)]));
                         }
                     }
-                    RingSel::Q => unreachable!(),
+                    RingSel::Q | RingSel::ZH => unreachable!(),
                     RingSel::Eisen => {
                         // nearest Eisenstein integer: |mu|^2 <= 1/3 < 1  =>  N(l) * 3 <= D_j^2  (weaker: N(l) < D_j^2 is what reduction needs)
                         let nl = l.norm().as_int().unwrap();
@@ -302,7 +302,7 @@ impl Harness for Lll {
             RingSel::Z => self.check::<I, I>(xs),
             RingSel::Gauss => self.check::<I, GaussInt<I>>(xs),
             RingSel::Eisen => self.check::<I, EisenInt<I>>(xs),
-            RingSel::Q => unreachable!(),
+            RingSel::Q | RingSel::ZH => unreachable!(),
         }
     }
 }
